@@ -405,7 +405,7 @@ def db_singles(desc_file: str, out: hlib.RecWriter, stats: dict) -> None:
     rng = random.Random(hlib.seed() * 1000003 + 16)
     ents = sorted(desc['bases'])
     if hlib.tier() != 'thorough':
-        ents = sorted(set(desc['cross']) | set(rng.sample(ents, 120)))
+        ents = sorted(set(desc['cross']) | set(rng.sample(ents, 60)))
     with Created() as watch:
         for t, e in enumerate(ents):
             world = World(None, watch)
@@ -703,7 +703,7 @@ def doc_cases(case_file: str, out: hlib.RecWriter, stats: dict) -> None:
 def doc_random(out: hlib.RecWriter, stats: dict) -> None:
     rng = random.Random(hlib.seed() * 65537 + 1600)
     thorough = hlib.tier() == 'thorough'
-    for n in range(1500 if thorough else 150):
+    for n in range(1500 if thorough else 100):
         p = rnd_ent(rng, n, False)
         ent = build_ent(p)
         for cs, ls in ((True, True), (True, False)) + (((False, True),) if n % 3 == 0 else ()):
@@ -899,7 +899,7 @@ def binary(out: hlib.RecWriter, stats: dict) -> None:
     keys = sorted(before)
     rng.shuffle(keys)
     if not thorough:
-        keys = list(dict.fromkeys([k for k in keys if k.startswith('verif_bin_')] + [CBASE] + keys[:400]))
+        keys = list(dict.fromkeys([k for k in keys if k.startswith('verif_bin_')] + [CBASE] + keys[:200]))
     for key in keys:
         p = before[key]
         try:
